@@ -69,6 +69,7 @@ type Config struct {
 	TimeLimit time.Duration // timers with a deadline beyond this virtual time never fire (0 = no limit)
 	Trace     bool          // record every point with its source location
 	StepHook  func()        // called at every scheduling point by the thread that holds the baton
+	ExecHook  func(thread, kind string) // called when a thread has been scheduled and is about to perform its operation
 	ExitHook  func(name string)
 }
 
@@ -95,6 +96,7 @@ type thread struct {
 	loc  string
 	done bool
 	quie bool // waiting for quiescence
+	nsel int  // selects performed by this thread
 }
 
 type timer struct {
@@ -259,6 +261,9 @@ func (s *Sched) point(kind string, en func() bool) {
 		t.loc = callerLoc()
 	}
 	s.dispatch(t)
+	if s.cfg.ExecHook != nil {
+		s.cfg.ExecHook(t.name, kind)
+	}
 	if s.cfg.Trace {
 		s.res.Trace = append(s.res.Trace, Event{Step: s.res.Points, Thread: t.id, Name: t.name, Kind: kind, Loc: t.loc, Now: s.now})
 	}
@@ -595,6 +600,15 @@ func NowNS() int64 {
 	return time.Now().UnixNano()
 }
 
+// SelectsDone returns how many selects the running thread has performed (lets a harness tell whether a call went
+// through a select at all).
+func SelectsDone() int {
+	if s := S; s != nil && s.cur != nil {
+		return s.cur.nsel
+	}
+	return 0
+}
+
 // ThreadName returns the name of the running managed thread.
 func ThreadName() string {
 	if s := S; s != nil && s.cur != nil {
@@ -826,6 +840,7 @@ func doSelect(hasDefault, prio bool, cases []Case) (int, Val) {
 	} else {
 		s.point("select", anyReady)
 	}
+	s.cur.nsel++
 	var ready [8]int
 	rd := ready[:0]
 	for i := range cases {
